@@ -9,8 +9,9 @@ from autobean_refactor import models
 
 D = decimal.Decimal
 CASES = {'quick': 4000, 'thorough': 120000}
+SMALL_BLOCKS = 4      # runner: every 4th case keeps its stores in 2..10-token blocks
 GATES = {
-    'quick': {'evaluations': 12000, 'parsed_values': 6000, 'applications': 5000, 'attached_operand_applications': 600,
+    'quick': {'cases_in_small_blocks': 50, 'evaluations': 12000, 'parsed_values': 6000, 'applications': 5000, 'attached_operand_applications': 600,
               'forms_seen': 10, 'zero_constant_operands': 200, 'independence_checks': 3000, 'chains_ge3': 400, 'results_needing_parens': 300},
     'thorough': {'evaluations': 400000, 'forms_seen': 10},
 }
